@@ -20,7 +20,7 @@ def fsmOf : String → Option Fsm
 def internal (s : St) : List Act :=
   [.runEnter, .runProbeOk, .runProbeFail true, .runProbeFail false, .runToRunning, .runSelCtx, .runSelStop, .runSelErr,
    .runToStopping, .runStopServer true, .runStopServer false, .runFinish,
-   .rlEnter, .rlStopOld true, .rlStopOld false, .rlBootBegin true, .rlBootBegin false, .rlProbeOk, .rlProbeFail true, .rlProbeFail false]
+   .rlEnter, .rlAfterCb, .rlStopOld true, .rlStopOld false, .rlBootBegin true, .rlBootBegin false, .rlProbeOk, .rlProbeFail true, .rlProbeFail false]
   ++ (List.range s.insts.length).flatMap fun i => [.instBind i, .instBindFail i]
 
 def noop (s : St) : List Act := [.observe s.fsm]
